@@ -14,6 +14,26 @@ REF_STEPS = {
     'component-by-name': lambda n: n.get('fn') == 'component' and n.get('mc') and len(n.get('c', [])) >= 2 and 'basic_string' in (n['c'][1].get('t', '') + n['c'][1].get('rt', '')),
 }
 VISITED_TESTS = ('checkForImportCycles', 'checkForLocalCycles')
+STD_MEMBERSHIP = ('std::find', 'std::find_if', 'std::count', 'std::count_if', 'std::any_of', 'std::none_of', 'std::binary_search')
+MEMBER_MEMBERSHIP = ('count', 'find', 'contains')
+
+
+def is_membership_test(F, t, depth=0):
+    """Is call t a membership test of a container: a std algorithm, a count/find/contains member, one of the repository's named
+    history tests, or a repository helper whose body is such a test over one of its parameters."""
+    if t.get('k') != 'Call':
+        return False
+    if t.get('fn') in VISITED_TESTS or t.get('callee') in STD_MEMBERSHIP:
+        return True
+    if t.get('mc') and t.get('fn') in MEMBER_MEMBERSHIP and (t.get('cls') or '').startswith('std::'):
+        return True
+    if depth < 2 and F is not None:
+        for ck in F.callee_keys(t):
+            g = F.funcs.get(ck)
+            if g is not None and g.j.get('ret') == 'bool' and len(list(g.walk())) < 120:
+                if any(is_membership_test(F, x, depth + 1) for x in g.walk() if x.get('k') == 'Call'):
+                    return True
+    return False
 
 
 def slice_nodes(f, expr, depth=0, seen=None):
@@ -87,7 +107,7 @@ def visited_guard(F, f, call):
     for t in f.walk():
         if t.get('k') != 'Call':
             continue
-        is_test = t.get('fn') in VISITED_TESTS or t.get('callee') in ('std::find', 'std::find_if', 'std::count')
+        is_test = is_membership_test(F, t)
         if not is_test:
             continue
         if not any(x.get('k') == 'Ref' and x.get('n') in passed for x in walk(t)):
@@ -122,7 +142,17 @@ def path_guard_balance(F, f):
         if not pushes or not pops:
             continue
         # only containers that serve as a cycle guard: some membership test (std::find / count) ranges over them
-        tested = any(c.get('k') == 'Call' and c.get('callee') in ('std::find', 'std::find_if', 'std::count') and any(x.get('k') == 'Ref' and x.get('d') == p['d'] for x in walk(c)) for c in f.walk())
+        def ranges_over(c):
+            # the container is what is searched (receiver of count/find/contains, or the begin()/end() range of an algorithm), not the key
+            if c.get('mc') and c.get('c') and c['c'][0].get('k') == 'Ref' and c['c'][0].get('d') == p['d']:
+                return True
+            for a in (c['c'][1:] if c.get('mc') else c.get('c', [])):
+                if a.get('k') == 'Call' and a.get('mc') and a.get('fn') in ('begin', 'cbegin', 'end', 'cend') and a['c'][0].get('k') == 'Ref' and a['c'][0].get('d') == p['d']:
+                    return True
+                if a.get('k') == 'Ref' and a.get('d') == p['d'] and not (c.get('callee') or '').startswith('std::') and not c.get('mc'):
+                    return True     # handed to a repository helper that tests membership
+            return False
+        tested = any(c.get('k') == 'Call' and is_membership_test(F, c) and ranges_over(c) for c in f.walk())
         if not tested:
             continue
         cfg = f.cfg()
